@@ -78,6 +78,13 @@ class Ctx:
                     return k
         return value
 
+    def untraced(self):
+        """Run a block on real (un-modelled) objects: only for code whose inputs are all concrete."""
+        if self.symbolic:
+            from crosshair.tracers import NoTracing
+            return NoTracing()
+        return contextlib.nullcontext()
+
     def lemma(self, fact):
         """Hand the solver a fact that is VALID (proved separately, see sym.prove_calendar_lemmas): adding a
         theorem to the path condition prunes nothing.  Natively it is simply asserted."""
